@@ -212,6 +212,7 @@ class Run:
         self.n_dis = 0
         self.unsupported = []
         self.extra = {}
+        self._bounded_done = set()
 
     def timeout_ms(self):
         return int(os.environ.get("VERIF_TIMEOUT_MS", "10000" if self.tier == "quick" else "60000"))
@@ -377,6 +378,12 @@ class Run:
                         print(f"  replay: {out.get('detail', '')[:300]}")
                         self.violations.append(f"VIOLATION property={self.pid} replay={fn.relative_to(HERE)}")
                         return
+        # the obligation held on the unchanged tree and cannot be established now: also
+        # try the bounded inputs of the contract on the real code
+        if unit.name not in self._bounded_done:
+            self._bounded_done.add(unit.name)
+            if self.bounded_standin(unit, f"obligation '{name}' undecided by the solvers"):
+                return
         self.undecided.append(f"{unit.name}::{name} (line {line}): solver verdict "
                               f"{r['verdict']} ({r.get('reason', '')}); {tried} candidate inputs "
                               f"replayed on the real code without failure")
